@@ -182,6 +182,10 @@ def validate_polars(spec, table, lazy=False, as_lazyframe=False, schema=None, **
         out["exc"] = type(exc).__name__
         out["where"] = pandera_frame_of(exc)
         out["msg"] = str(exc)[:300]
+        if out["where"] == "outside-pandera" and "result_type" in out:
+            # validate() returned a LazyFrame; the failure surfaced when the harness collected it,
+            # i.e. outside validate: not an escape from validate
+            out["outcome"] = "lazy_result_failed_on_collect"
     out["input_before"] = before
     out["input_after"] = T.snap_polars(data)
     out["input_type"] = type(data).__name__
